@@ -54,7 +54,8 @@ def oracle(p):
             new = sid not in known
             if new and not client:
                 V(FINDINGS['F-C08-1'], {'stream': sid})
-            if new and client and not any(bytes(n).lower().strip() == b':method' for n, v, _ in hs):
+            # (the content of the block is checked only when the application left outbound validation on: C14)
+            if new and client and p['cfg']['validate_out'] and not any(bytes(n).lower().strip() == b':method' for n, v, _ in hs):
                 V('a client opened a stream with a header block that is not a request', {'stream': sid})
             if s['ended']:
                 V('headers emitted after the stream was ended locally', {'stream': sid})
